@@ -169,23 +169,45 @@ func (c *ctx) open(stall string) *peerConn {
 		}
 		pc.s = tc
 	}
-	head := reqHead
-	if c.stack == "mitm" {
-		head = "GET /x HTTP/1.1\r\nHost: ok.test\r\n\r\n"
+	if stall == "no-byte" {
+		return pc
 	}
+	return c.request(pc, stall)
+}
+
+func (c *ctx) head() string {
+	if c.stack == "mitm" {
+		return "GET /x HTTP/1.1\r\nHost: ok.test\r\n\r\n"
+	}
+	return reqHead
+}
+
+// headCut is the number of bytes of the request head a peer stalling at the named point sends (0: not a head stall).
+func (c *ctx) headCut(stall string) int {
 	var k int
 	switch {
-	case stall == "no-byte":
-		return pc
 	case stall == "request-head-without-final-LF":
-		pc.s.Send([]byte(head[:len(head)-1]))
-		return pc
+		return len(c.head()) - 1
 	case scan(stall, "partial-request-head-%d", &k):
-		pc.s.Send([]byte(head[:k]))
+		return k
+	}
+	return 0
+}
+
+// request sends the next request head on an established connection up to the stall point; without a
+// stall in the head it drives a full exchange (unanswered for "origin-slow").
+func (c *ctx) request(pc *peerConn, stall string) *peerConn {
+	if k := c.headCut(stall); k > 0 {
+		pc.s.Send([]byte(c.head()[:k]))
 		return pc
 	}
-	// a full exchange
-	pc.s.Send([]byte(head))
+	return c.exchange(pc, stall, []byte(c.head()))
+}
+
+// exchange sends the (rest of the) request head and expects the exchange to be forwarded and answered.
+func (c *ctx) exchange(pc *peerConn, stall string, bytes []byte) *peerConn {
+	before := len(httpwire.ParseResponses(pc.s.Recv(), []string{"GET", "GET", "GET"}, false).Msgs)
+	pc.s.Send(bytes)
 	hop := c.ok
 	if c.stack == "mitm" {
 		hop = c.okTLS
@@ -205,8 +227,8 @@ func (c *ctx) open(stall string) *peerConn {
 		return pc // the origin does not answer yet
 	}
 	hop.Conns[conns[0]].Send([]byte("HTTP/1.1 200 OK\r\nContent-Length: 2\r\n\r\nok"))
-	rs := httpwire.ParseResponses(pc.s.Recv(), []string{"GET"}, false)
-	if len(rs.Msgs) != 1 || rs.Msgs[0].Status != 200 {
+	rs := httpwire.ParseResponses(pc.s.Recv(), []string{"GET", "GET", "GET"}, false)
+	if len(rs.Msgs) != before+1 || rs.Msgs[before].Status != 200 {
 		c.x.Failf("exchange-not-answered", "client got %q", world.Clip(pc.s.Recv()))
 		return nil
 	}
@@ -261,14 +283,55 @@ func scenario(x *explore.X, everyOffset bool) {
 	c.ok, _ = w.Hop("ok.test:80", nil)
 	c.okTLS, _ = w.Hop("ok.test:443", &tls.Config{Certificates: []tls.Certificate{c.pki.Leaf([]string{"ok.test"}, -time.Hour, time.Hour)}})
 
+	// A stall inside a request head can be preceded by complete exchanges and by a quiet period shorter
+	// than idle-timeout (also longer than read-header-timeout): the header limit runs from the first
+	// byte of the head, so neither changes the instant at which the socket must be closed; and instead
+	// of stalling for good the peer may complete its head 1 ms before the limit and must be served.
+	headStall := false
+	var prior, finish int
+	var quiet time.Duration
+	{
+		cc := &ctx{stack: stack}
+		headStall = cc.headCut(sp.name) > 0
+	}
+	if headStall {
+		prior = x.Choose("prior-exchanges", 2)
+		quiet = []time.Duration{0, headerTO + time.Second, idleTO - time.Millisecond}[x.Choose("quiet-before-head", 3)]
+		finish = x.Choose("completes-head-1ms-before-limit", 2)
+	}
 	t0 := time.Now()
 	var stalled []*peerConn
 	for i := 0; i < npeers; i++ {
-		pc := c.open(sp.name)
+		first := sp.name
+		if headStall {
+			first = []string{"no-byte", "between-requests"}[prior]
+		}
+		pc := c.open(first)
 		if pc == nil {
 			return
 		}
 		stalled = append(stalled, pc)
+	}
+	if headStall {
+		if d := time.Since(t0); d != 0 {
+			x.Failf("delayed-by-stalled-peers/establishing", "stack %s: bringing %d peers to the start of a request head (prior exchanges %d) took %v of virtual time", stack, npeers, prior, d)
+			cleanup(x, w, c, stalled, nil)
+			return
+		}
+		world.Settle(quiet)
+		for i, pc := range stalled {
+			if pc.closedByProxy() {
+				x.Failf("closed-before-limit/idle", "stack %s: peer %d (prior exchanges %d) was closed after %v without a request, idle-timeout is %v", stack, i, prior, time.Since(t0), idleTO)
+			}
+		}
+		if x.Failed() {
+			cleanup(x, w, c, stalled, nil)
+			return
+		}
+		t0 = time.Now()
+		for _, pc := range stalled {
+			c.request(pc, sp.name)
+		}
 	}
 	if d := time.Since(t0); d != 0 {
 		// establishing the stalls must not consume virtual time either (each peer behaves well up to its stall point)
@@ -301,8 +364,18 @@ func scenario(x *explore.X, everyOffset bool) {
 		world.Settle(sp.limit - time.Millisecond - elapsed)
 		for i, pc := range stalled {
 			if pc.closedByProxy() {
-				x.Failf("closed-before-limit", "stack %s stall %s: peer %d was closed %v after stalling, before the limit of %v", stack, sp.name, i, time.Since(t0), sp.limit)
+				x.Failf("closed-before-limit", "stack %s stall %s (prior exchanges %d, quiet %v before the first byte): peer %d was closed %v after stalling, before the limit of %v", stack, sp.name, prior, quiet, i, time.Since(t0), sp.limit)
 			}
+		}
+		if finish == 1 && !x.Failed() {
+			for i, pc := range stalled {
+				if c.exchange(pc, "", []byte(c.head()[c.headCut(sp.name):])) == nil && !x.Failed() {
+					x.Failf("late-head-not-served", "stack %s stall %s: peer %d completed its request head %v after its first byte (limit %v) and was not served", stack, sp.name, i, time.Since(t0), sp.limit)
+				}
+			}
+			x.Outcome(fmt.Sprintf("%s/%s/%v/completed", stack, sp.name, sp.limit))
+			cleanup(x, w, c, stalled, probe)
+			return
 		}
 		world.Settle(2 * time.Millisecond)
 		for i, pc := range stalled {
@@ -361,11 +434,11 @@ func cleanup(x *explore.X, w *world.World, c *ctx, stalled []*peerConn, probe *p
 
 func TestC15(t *testing.T) {
 	s := explore.NewSuite(t, "C15", "model_checking",
-		"listener stacking(5: plain, TLS, PROXY protocol, PROXY protocol + TLS, MITM inside CONNECT) x every stall point of that stacking (no byte, partial PROXY header at 3 offsets, partial TLS hello at 2 offsets, after CONNECT, partial request head at 3 offsets, between requests, origin slow) [full product] x number of simultaneously stalled peers {1,2,8} [bounded]; thorough additionally stalls at EVERY byte offset of the PROXY header, of the TLS hello prefix and of the request head; all on the virtual clock with distinct limits (idle 30 s, read-header 7 s, TLS handshake 5 s, PROXY header 3 s); states = quiescent states at t0, limit-1ms, limit+1ms; oracle: probe client connecting at the same virtual instant is served in 0 s, stalled sockets open at limit-1ms and closed at limit+1ms, never closed while only the origin is slow (10 virtual minutes), the late answer is delivered")
+		"listener stacking(5: plain, TLS, PROXY protocol, PROXY protocol + TLS, MITM inside CONNECT) x every stall point of that stacking (no byte, partial PROXY header at 3 offsets, partial TLS hello at 2 offsets, after CONNECT, partial request head at 3 offsets, between requests, origin slow) [full product] x number of simultaneously stalled peers {1,2,8} x for stalls inside a request head: complete exchanges before it {0,1} x quiet period before its first byte {0, read-header-timeout+1s, idle-timeout-1ms} x {stall for good, complete the head 1 ms before the limit and be served} [bounded: quick <=2 deviations, thorough full product]; thorough additionally stalls at EVERY byte offset of the PROXY header, of the TLS hello prefix and of the request head; all on the virtual clock with distinct limits (idle 30 s, read-header 7 s, TLS handshake 5 s, PROXY header 3 s); states = quiescent states at t0, limit-1ms, limit+1ms; oracle: probe client connecting at the same virtual instant is served in 0 s, stalled sockets open at limit-1ms and closed at limit+1ms, never closed while only the origin is slow (10 virtual minutes), the late answer is delivered")
 	s.Assume = []string{"testing/synctest virtual clock: time advances only when every goroutine of the proxy is durably blocked", "sync.Mutex held across timed waits in proxy.go and proxyproto/net.go replaced by a channel mutex at build time (vsync) so the virtual clock can advance"}
-	s.Add(explore.Scenario{Name: "stalls", Remote: true, MaxDev: map[string]int{"quick": 1, "thorough": 1},
+	s.Add(explore.Scenario{Name: "stalls", Remote: true, MaxDev: map[string]int{"quick": 2, "thorough": 4},
 		Run: func(x *explore.X) { world.Run(t, x, func() { scenario(x, false) }) }})
-	s.Add(explore.Scenario{Name: "every-offset", Remote: true, Tiers: []string{"thorough"}, MaxDev: map[string]int{"thorough": 1},
+	s.Add(explore.Scenario{Name: "every-offset", Remote: true, Tiers: []string{"thorough"}, MaxDev: map[string]int{"thorough": 2},
 		Run: func(x *explore.X) { world.Run(t, x, func() { scenario(x, true) }) }})
 	s.Main()
 }
